@@ -25,3 +25,11 @@ def run(chk):
         if (cls, name) in (("StrategyBase", "positions"), ("StrategyBase", "outlays")):
             # computed accessors: recomputed from the tree on every read (nothing cached across reads)
             check_equiv(chk, "C18.R1", mod, cls, name, src, "report-formula", "%s.%s: %s" % (cls, name, what), no_inline=("update", "get_transactions"), limit=14, ignore_refresh=True)
+    from .c06 import close_flatten
+
+    close_flatten(chk, "C08")  # a liquidation always leaves the tree marked stale: the next read sees it
+    from .c20 import REFS as RISK_REFS
+    for cls_, name_, src_, what_ in RISK_REFS:
+        if (cls_, name_) == ("UpdateRisk", "_set_risk_recursive"):
+            # the risk history an algo keeps on the nodes is recorded history too: earlier rows are never wiped
+            check_equiv(chk, "C20.R1", "bt/algos.py", cls_, name_, src_, "documented-behaviour", "%s.%s: %s" % (cls_, name_, what_), no_inline=("_set_risk_recursive",), limit=14)
